@@ -98,7 +98,7 @@ package client
 //@   ensures [C08 live_answer_is_reported] sockq.err == nil ==> (st == obs.json_st && err == obs.json_err)
 //@   ensures [C08 silent_socket_means_not_running] sockq.err != nil && !err_is(sockq.err, sock.ErrTimeout) ==>
 //@        (err == nil && st != nil && st.Status == scheduler.StatusNone)
-//@   ensures [C16 timeout_is_not_taken_for_not_running] sockq.err != nil && err_is(sockq.err, sock.ErrTimeout) ==> err != nil
+//@   ensures [C08,C16 timeout_is_not_taken_for_not_running] sockq.err != nil && err_is(sockq.err, sock.ErrTimeout) ==> err != nil
 
 //@ fn (*client).currentStatus(c, workflow) (st, err)
 //@   props C08
